@@ -98,3 +98,25 @@ func LedgerContract(r *rand.Rand, targets []common.Address, depth int) []byte {
 	}
 	return a.Bytes()
 }
+
+// PhoenixFeeder creates a child contract, makes it self-destruct (call with value 0), then
+// sends it `gift` wei in the same transaction.  The child is destroyed at the end of the
+// transaction (also under EIP-6780: it was created in the same transaction), so the gift is
+// burned with it before Amsterdam and kept on a balance-only account from Amsterdam on (EIP-8246).
+func PhoenixFeeder(beneficiary common.Address, gift uint64) []byte {
+	// child runtime: value == 0 -> SELFDESTRUCT(beneficiary); otherwise just accept the ether
+	c := NewAsm()
+	c.Op(vm.CALLVALUE, vm.ISZERO).Jumpi("die").Op(vm.STOP)
+	c.Label("die").PushAddr(beneficiary).Op(vm.SELFDESTRUCT)
+	init := Initcode(nil, c.Bytes())
+
+	a := NewAsm()
+	a.Push(uint64(len(init))).PushLabel("d").Push(1).Op(vm.ADD).Push(0).Op(vm.CODECOPY)
+	a.Push(uint64(len(init))).Push(0).Push(3).Op(vm.CREATE)                                   // endowment 3 wei; stack: [child]
+	a.Push(0).Push(0).Push(0).Push(0).Push(0).Op(vm.DUP6).Push(100000).Op(vm.CALL, vm.POP)    // child self-destructs
+	a.Push(0).Push(0).Push(0).Push(0).Push(gift).Op(vm.DUP6).Push(100000).Op(vm.CALL, vm.POP) // gift to the destroyed child
+	a.Op(vm.STOP)
+	a.Label("d")
+	a.Raw(init...)
+	return a.Bytes()
+}
